@@ -911,7 +911,7 @@ impl<'a> Elab<'a> {
         let inner_ctx = Ctx { protected: ctx.protected, ..ctx };
         // shape of the body around `next`
         let mut shape = pick(c[3], if streamlike { 6 } else { 8 });
-        if streamlike && self.cfg.stream_fold_par_only {
+        if streamlike && self.cfg.stream_fold_par_only && std::env::var("VERIF_TRY_SEQ").is_err() {
             shape = 3;
         }
         if streamlike && !(shape == 3 || shape == 4) {
